@@ -587,10 +587,14 @@ class SQLTranspiler(StructureVisitor, ASTTemplate):
             elif comp.role == Role.VIRAL_ATTRIBUTE:
                 if viral_expr_fn is not None:
                     cols.append(f"{viral_expr_fn(name, comp)} AS {quote_name(name)}")
-                elif output_ds is not None and name in output_ds.components:
+                elif not self._is_outermost_operand() or (
+                    output_ds is not None and name in output_ds.components
+                ):
                     # Row-preserving op: execute the viral propagation rule over the
                     # result (aggregate rules collapse dataset-wide, enumerated map per
-                    # row); no rule = passthrough. Only when the output keeps it (issue #877).
+                    # row); no rule = passthrough. Only when the output keeps it (issue #877);
+                    # an operand of an enclosing operator or clause always carries it (the
+                    # statement's output says nothing about what the enclosing one reads).
                     rule = get_current_registry().rule_for(comp)
                     if rule is None:
                         cols.append(quote_name(name))
@@ -824,11 +828,13 @@ class SQLTranspiler(StructureVisitor, ASTTemplate):
         vp_registry = get_current_registry()
         left_viral = {n for n, c in left_ds.components.items() if c.role == Role.VIRAL_ATTRIBUTE}
         right_viral = {n for n, c in right_ds.components.items() if c.role == Role.VIRAL_ATTRIBUTE}
-        if output_ds is not None:
+        if output_ds is not None and self._is_outermost_operand():
             viral_names = [
                 n for n, c in output_ds.components.items() if c.role == Role.VIRAL_ATTRIBUTE
             ]
         else:
+            # An operand of an enclosing operator or clause carries the viral attributes of its
+            # own operands, whatever the statement's output keeps.
             viral_names = sorted(left_viral | right_viral)
         for name in viral_names:
             qn = quote_name(name)
